@@ -240,7 +240,9 @@ def gen_pass(g, name, data):
     s = {"Type": "Pass"}
     eff = add_filters(g, s, data)
     if d(st.integers(0, 9)) < 5:
-        s["Result"] = d(small_json(4))
+        # (now and then an object whose 'Error' member is present but falsy: ordinary data, unlike the truthy in-band convention of finding C01-F8)
+        s["Result"] = d(st.one_of(small_json(4), small_json(4), small_json(4), small_json(4),
+                                  st.sampled_from([{"Error": None, "v": 1}, {"Error": "", "Cause": "c"}, {"Error": 0}, {"Error": False, "k": [1]}, {"Result": 42, "Error": None}])))
         g.feature("Pass-Result")
     add_output_filters(g, s, data)
     if "Result" not in s and s.get("ResultPath") not in (None, "$", ) and "ResultPath" in s:
